@@ -174,6 +174,8 @@ type IntruderAgent struct {
 	Budget    int
 	Finalize  bool // may put and remove a blocking finalizer
 	DriftOnly bool // only edit managed fields / delete / block (no ownership changes, no foreign fields)
+	// PhaseObjects lets the intruder delete delegated phase objects (ObjectSetPhases) as well.
+	PhaseObjects bool
 	Targets   []intruderTarget
 }
 
@@ -224,6 +226,37 @@ func (a *IntruderAgent) act(w *World) {
 		return
 	}
 	a.Budget--
+	if a.PhaseObjects && w.Sch.Intn(8, "intruder-phase-object") == 0 {
+		// somebody deletes a delegated phase object (kubectl delete objectsetphase ...): its controller
+		// tears the phase down, the ObjectSet re-creates it under the same name with a new UID
+		var cands []store.Key
+		for _, k := range sortedKeys(w.Mgmt.Objs) {
+			if k.Group == PKOGroup && isPhaseKind(k.Kind) && !store.Deleting(w.Mgmt.Objs[k]) {
+				cands = append(cands, k)
+			}
+		}
+		if len(cands) > 0 {
+			k := cands[w.Sch.Intn(len(cands), "intruder-phase-object-target")]
+			if !a.DriftOnly && w.Sch.Intn(3, "intruder-phase-object-op") == 0 {
+				// somebody else takes the phase object over (controller reference replaced)
+				w.Stats.Probe("intruder-reown-phase-object")
+				w.Tracef("INTRUDER re-own phase object %s", k)
+				fns := k.Namespace
+				if fns == "" {
+					fns = nsMain
+				}
+				fo := foreignOwner(w, w.Mgmt, fns)
+				_, _ = w.TP("intruder", w.Mgmt).Mutate(k, func(o store.Obj) {
+					store.Meta(o)["ownerReferences"] = []any{nativeRef(fo, true)}
+				})
+				return
+			}
+			w.Stats.Probe("intruder-delete-phase-object")
+			w.Tracef("INTRUDER delete phase object %s", k)
+			_ = w.TP("intruder", w.Mgmt).Delete(k, "Background")
+			return
+		}
+	}
 	t := a.Targets[w.Sch.Intn(len(a.Targets), "intruder-target")]
 	cl := w.Cluster(t.cluster)
 	k := w.normKey(t.cluster, store.KeyOf(t.obj))
